@@ -216,6 +216,51 @@ def run_miri(ctx, d, label, pid, flags, episodes, max_ops, modules, nshards=16, 
                         "max_operations_per_episode": max_ops, "modules": modules or "all"})
 
 
+def run_asan(ctx, d, label, pid, episodes, max_ops, release=False):
+    """AddressSanitizer + LeakSanitizer build of the hooks-off driver (nightly, -Zsanitizer)."""
+    env = dict(common.ENV)
+    env["RUSTFLAGS"] = "-Zsanitizer=address -Cforce-frame-pointers=yes"
+    env["CARGO_TARGET_DIR"] = os.path.join(common.WORK, "target-gendrv-asan-%s" % ctx.tier)
+    cmd = ["cargo", "+nightly", "build", "--offline", "--target", "x86_64-unknown-linux-gnu"] + (["--release"] if release else [])
+    with common.Lock("gendrv-build-asan-%s" % ctx.tier):
+        rc, out, err = common.sh(cmd, cwd=d, env=env, timeout=3600)
+    if rc != 0:
+        ctx.inconclusive.append("AddressSanitizer build failed: %s" % "\n".join((err or "").splitlines()[-8:]))
+        return
+    binary = os.path.join(env["CARGO_TARGET_DIR"], "x86_64-unknown-linux-gnu", "release" if release else "debug", "gendrv")
+    renv = dict(common.ENV)
+    renv["ASAN_OPTIONS"] = "detect_leaks=1:halt_on_error=1:detect_stack_use_after_return=1"
+    nsh = 12
+    jobs = [("asan-%d" % s, [binary, "--seed", str(ctx.seed), "--episodes", str(episodes), "--max-ops", str(max_ops), "--shard", str(s), "--nshards", str(nsh), "--quiet-panics"], None, renv)
+            for s in range(nsh)]
+    clean = 0
+    for (lab, rc, out, err, secs) in ctx.run_parallel(jobs, 3600):
+        rep = common.parse_json_tail(out)
+        if rc is None:
+            ctx.inconclusive.append("AddressSanitizer run %s timed out" % lab)
+            continue
+        m = re.search(r"ERROR: (AddressSanitizer|LeakSanitizer): ([^\n]*)", err or "")
+        if m:
+            what = m.group(2).split(" on address")[0].split(" at pc")[0][:80]
+            frames = [l.strip() for l in (err or "").splitlines() if re.match(r"\s*#\d+ ", l) and ("/repo/" in l or "/src/m" in l or "gendrv::m" in l)][:2]
+            leak = m.group(1) == "LeakSanitizer" or "double-free" in what or "attempting free" in what
+            if pid == "C07" or (pid == "C06" and leak):
+                ctx.violation("asan", "[%s] %s: %s | %s | run %s" % (label, m.group(1), what, " <- ".join(f[:160] for f in frames), lab),
+                              "%s asan %s %s" % (pid, what, re.sub(r"0x[0-9a-f]+|:\d+", "", " ".join(frames))[:200]),
+                              {"stderr": (err or "")[:6000], "cmd": " ".join(jobs[0][1]), "env": renv["ASAN_OPTIONS"]})
+            else:
+                ctx.inconclusive.append("AddressSanitizer reported `%s` (a C07 matter) in %s" % (what, lab))
+            continue
+        if rc != 0 or rep is None:
+            ctx.inconclusive.append("AddressSanitizer run %s ended with status %s without a sanitizer report: %s" % (lab, rc, (err or "")[-200:]))
+            continue
+        clean += 1
+        absorb(ctx, rep, label, pid)
+    ctx.count(label + ".processes_clean", clean)
+    ctx.subruns.append({"engine": "gendrv", "sanitizer": "AddressSanitizer + LeakSanitizer (nightly -Zsanitizer=address, hooks off, %s)" % ("release" if release else "debug"),
+                        "episodes_per_module_and_capacity": episodes, "processes": nsh})
+
+
 def run_valgrind(ctx, binary, label, pid, episodes, max_ops):
     jobs = []
     nsh = 8
@@ -322,6 +367,8 @@ def run_generic(ctx):
     d, manifest, binaries = prepare(ctx, combos(ctx))
     after_prepare(ctx, manifest, pid)
     standard_native(ctx, pid, binaries)
+    if pid == "C06":
+        run_asan(ctx, d, "asan-debug", pid, 100 if ctx.quick else 1500, 40)
     if not ctx.quick:
         run_miri(ctx, d, "miri-sb", pid, SB, 6, 30, miri_modules(manifest, 40), extra=["--no-serde", "--caps", "0"])
         if pid in ("C06",):
@@ -335,9 +382,11 @@ def run_c07(ctx):
     d, manifest, binaries = prepare(ctx, combos(ctx))
     after_prepare(ctx, manifest, pid)
     standard_native(ctx, pid, binaries)
+    run_asan(ctx, d, "asan-debug", pid, 100 if ctx.quick else 1500, 40)
     if ctx.quick:
         run_miri(ctx, d, "miri-sb", pid, SB, 6, 25, miri_modules(manifest, 24), extra=["--no-serde", "--caps", "0"])
     else:
+        run_asan(ctx, d, "asan-release", pid, 1500, 40, release=True)
         run_miri(ctx, d, "miri-sb", pid, SB, 12, 40, None, extra=["--no-serde"])
         run_miri(ctx, d, "miri-tb", pid, TB, 6, 30, miri_modules(manifest, 40), extra=["--no-serde", "--caps", "0"])
         run_miri(ctx, d, "miri-serde", pid, "", 4, 30, [m["module"] for m in manifest["modules"] if m["status"] == "emitted" and "serde" in m.get("fragments", "")][:24], extra=["--caps", "0"])
